@@ -1,4 +1,5 @@
 import TsVerif.C07.Model
+import TsVerif.C07.Pools
 /-!
 # C07 — No memory-unsafe behaviour, assertion failure or leak for any conforming use
 
@@ -21,6 +22,9 @@ on, on models tied to the code; the property itself is decided on real execution
 | `links[link_count++]` never overruns `links[MAX_LINK_COUNT]` | `stack_links_bounded` |
 | reference counts = owners after every history of tree copy/edit/delete (incl. the release cascade), no dangling link, no cell without owner, copy-on-write writes only exclusively owned cells, freed ids never reused | proved in `TsVerif/C08/Props.lean` (`rc_invariant`, `no_dangling_no_garbage`, `writes_exclusive`, `freed_never_reused_*`) |
 | every allocation freed exactly once (leak freedom) | OPEN `no_leak_no_double_free` for full API histories (the tree-handle part is C08's `rc_invariant`; missing: the parser-held references — token cache, `finished_tree`, `old_tree`, reusable node, stack heads —, query/cursor objects, and acyclicity): **judged** on every history by the counting allocator |
+| the recycling pools never hand out a live object, never cache more than their cap, never free twice | `pool_alloc_ok`, `pool_free_ok` (subtree pool `TS_MAX_TREE_POOL_SIZE`, stack node pool `MAX_NODE_POOL_SIZE`) |
+| capture lists are never shared between query states, the pool respects its limit | `capture_acquire_ok`, `capture_release_ok`, `capture_reset_ok` |
+| external scanner states: inline ≤ 24 bytes, heap otherwise; allocations = frees | `ess_roundtrip` |
 | `iterators_bounded`, `children_before_header` | OPEN (not ported) |
 -/
 namespace TsVerif.C07
@@ -208,5 +212,221 @@ theorem stack_links_bounded : ∀ (fuel : Nat) (g : Graph) (self : Nat) (link : 
 
 example : Graph.Bounded [{ links := [], state := 0, pos := 0, cost := 0 }] := by
   intro n hn; simp at hn; subst hn; simp
+
+
+/-! ## recycling pools (subtree pool, stack node pool) -/
+
+/-- `pool_alloc_ok`: allocation keeps "every object is in exactly one place", the cache bound, and
+never hands out an object that is live or that was already returned to the allocator. -/
+theorem pool_alloc_ok (w : PoolW) (h : w.Ok) :
+    (w.alloc).1.Ok ∧ (w.alloc).2 ∉ w.live ∧ (w.alloc).2 ∉ w.released ∧ (w.alloc).2 ∈ (w.alloc).1.live := by
+  unfold PoolW.alloc
+  cases hp : w.pool with
+  | nil =>
+    simp only
+    have hfresh : ∀ l : List Nat, (∀ x, x ∈ l → x < w.next) → w.next ∉ l := fun l hl hm => Nat.lt_irrefl _ (hl _ hm)
+    have hnl := hfresh w.live (fun x hx => h.below x (Or.inr (Or.inl hx)))
+    have hnr := hfresh w.released (fun x hx => h.below x (Or.inr (Or.inr hx)))
+    refine ⟨⟨by simp, by simp, List.nodup_cons.mpr ⟨hnl, h.nodupL⟩, h.nodupR, by simp, by simp, ?_, ?_⟩, hnl, hnr, by simp⟩
+    · intro x hx
+      rcases List.mem_cons.mp hx with hx | hx
+      · subst hx; exact hnr
+      · exact h.dLR x hx
+    · intro x hx
+      show x < w.next + 1
+      simp only [List.not_mem_nil, false_or, List.mem_cons] at hx
+      rcases hx with (hx | hx) | hx
+      · omega
+      · have := h.below x (Or.inr (Or.inl hx)); omega
+      · have := h.below x (Or.inr (Or.inr hx)); omega
+  | cons x rest =>
+    simp only
+    have hxp : x ∈ w.pool := by rw [hp]; exact List.mem_cons_self
+    have hnd := h.nodupP; rw [hp] at hnd
+    have hnd' := List.nodup_cons.mp hnd
+    have hb := h.bounded; rw [hp] at hb
+    refine ⟨⟨by simp at hb ⊢; omega, hnd'.2, List.nodup_cons.mpr ⟨h.dPL x hxp, h.nodupL⟩, h.nodupR, ?_, ?_, ?_, ?_⟩,
+      h.dPL x hxp, h.dPR x hxp, by simp⟩
+    · intro y hy hm
+      rcases List.mem_cons.mp hm with hm | hm
+      · subst hm; exact hnd'.1 hy
+      · exact h.dPL y (by rw [hp]; exact List.mem_cons_of_mem _ hy) hm
+    · intro y hy; exact h.dPR y (by rw [hp]; exact List.mem_cons_of_mem _ hy)
+    · intro y hy
+      rcases List.mem_cons.mp hy with hy | hy
+      · subst hy; exact h.dPR y hxp
+      · exact h.dLR y hy
+    · intro y hy
+      apply h.below
+      rcases hy with hy | hy | hy
+      · exact Or.inl (by rw [hp]; exact List.mem_cons_of_mem _ hy)
+      · rcases List.mem_cons.mp hy with hy | hy
+        · subst hy; exact Or.inl hxp
+        · exact Or.inr (Or.inl hy)
+      · exact Or.inr (Or.inr hy)
+
+/-- `pool_free_ok`: freeing a live object keeps the invariant: the object goes to the cache (never
+beyond its capacity) or back to the allocator — where it was not before: **no double free**. -/
+theorem pool_free_ok (w : PoolW) (x : Nat) (h : w.Ok) (hx : x ∈ w.live) :
+    (w.free x).Ok ∧ x ∉ (w.free x).live ∧ x ∉ w.released := by
+  have hnotR := h.dLR x hx
+  have hnotP : x ∉ w.pool := fun hp => h.dPL x hp hx
+  have herase : x ∉ w.live.erase x := by
+    intro hm
+    exact (List.Nodup.mem_erase_iff h.nodupL).mp hm |>.1 rfl
+  have hsub : ∀ y, y ∈ w.live.erase x → y ∈ w.live := fun y hy => List.mem_of_mem_erase hy
+  unfold PoolW.free
+  split
+  · rename_i hc
+    simp only [Bool.and_eq_true, decide_eq_true_eq] at hc
+    refine ⟨⟨by simp; omega, List.nodup_cons.mpr ⟨hnotP, h.nodupP⟩, h.nodupL.erase x, h.nodupR, ?_, ?_, ?_, ?_⟩, herase, hnotR⟩
+    · intro y hy hm
+      rcases List.mem_cons.mp hy with hy | hy
+      · subst hy; exact herase hm
+      · exact h.dPL y hy (hsub y hm)
+    · intro y hy
+      rcases List.mem_cons.mp hy with hy | hy
+      · subst hy; exact hnotR
+      · exact h.dPR y hy
+    · intro y hy; exact h.dLR y (hsub y hy)
+    · intro y hy
+      apply h.below
+      rcases hy with hy | hy | hy
+      · rcases List.mem_cons.mp hy with hy | hy
+        · subst hy; exact Or.inr (Or.inl hx)
+        · exact Or.inl hy
+      · exact Or.inr (Or.inl (hsub y hy))
+      · exact Or.inr (Or.inr hy)
+  · refine ⟨⟨h.bounded, h.nodupP, h.nodupL.erase x, List.nodup_cons.mpr ⟨hnotR, h.nodupR⟩, ?_, ?_, ?_, ?_⟩, herase, hnotR⟩
+    · intro y hy hm; exact h.dPL y hy (hsub y hm)
+    · intro y hy hm
+      rcases List.mem_cons.mp hm with hm | hm
+      · subst hm; exact hnotP hy
+      · exact h.dPR y hy hm
+    · intro y hy hm
+      rcases List.mem_cons.mp hm with hm | hm
+      · subst hm; exact herase hy
+      · exact h.dLR y (hsub y hy) hm
+    · intro y hy
+      apply h.below
+      rcases hy with hy | hy | hy
+      · exact Or.inl hy
+      · exact Or.inr (Or.inl (hsub y hy))
+      · rcases List.mem_cons.mp hy with hy | hy
+        · subst hy; exact Or.inr (Or.inl hx)
+        · exact Or.inr (Or.inr hy)
+
+example : PoolW.Ok { cap := TS_MAX_TREE_POOL_SIZE, enabled := true, pool := [], live := [], released := [], next := 0 } :=
+  ⟨by simp, by simp, by simp, by simp, by simp, by simp, by simp, by simp⟩
+
+/-! ## capture-list pool -/
+
+theorem firstUnused_spec : ∀ (l : List Bool) (i : Nat), firstUnused l = some i → l[i]? = some false
+  | [], i, h => by simp [firstUnused] at h
+  | false :: rest, i, h => by simp [firstUnused] at h; subst h; rfl
+  | true :: rest, i, h => by
+    simp only [firstUnused, Option.map_eq_some_iff] at h
+    obtain ⟨j, hj, hij⟩ := h
+    subst hij
+    simpa using firstUnused_spec rest j hj
+
+theorem firstUnused_none : ∀ (l : List Bool), firstUnused l = none → unusedCount l = 0
+  | [], _ => rfl
+  | false :: rest, h => by simp [firstUnused] at h
+  | true :: rest, h => by
+    simp only [firstUnused, Option.map_eq_none_iff] at h
+    have := firstUnused_none rest h
+    simpa [unusedCount] using this
+
+theorem unusedCount_set_true : ∀ (l : List Bool) (i : Nat), l[i]? = some false →
+    unusedCount (l.set i true) + 1 = unusedCount l
+  | [], i, h => by simp at h
+  | b :: rest, 0, h => by simp at h; subst h; simp [unusedCount]
+  | b :: rest, i + 1, h => by
+    have := unusedCount_set_true rest i (by simpa using h)
+    cases b <;> simp [unusedCount] at this ⊢ <;> omega
+
+theorem unusedCount_set_false : ∀ (l : List Bool) (i : Nat), l[i]? = some true →
+    unusedCount (l.set i false) = unusedCount l + 1
+  | [], i, h => by simp at h
+  | b :: rest, 0, h => by simp at h; subst h; simp [unusedCount]
+  | b :: rest, i + 1, h => by
+    have := unusedCount_set_false rest i (by simpa using h)
+    cases b <;> simp [unusedCount] at this ⊢ <;> omega
+
+theorem unusedCount_append_true (l : List Bool) : unusedCount (l ++ [true]) = unusedCount l := by
+  simp [unusedCount, List.filter_append]
+
+/-- `capture_acquire_ok`: acquire keeps "free count = number of unused lists" and the limit; the id
+it returns is inside the pool and was **not in use** (no two query states ever share a capture
+list); it returns NONE exactly when the pool is empty in the sense of `capture_list_pool_is_empty`. -/
+theorem capture_acquire_ok (p : CapPool) (h : p.Ok) :
+    (p.acquire).1.Ok ∧
+    (match (p.acquire).2 with
+     | some i => i < (p.acquire).1.inUse.length ∧ p.inUse[i]? ≠ some true ∧ (p.acquire).1.inUse[i]? = some true
+     | none => p.isEmpty = true ∧ (p.acquire).1 = p) := by
+  unfold CapPool.acquire
+  by_cases hf : p.freeCount > 0
+  · simp only [hf, if_true]
+    cases hu : firstUnused p.inUse with
+    | none => have := firstUnused_none _ hu; have := h.count; omega
+    | some i =>
+      simp only
+      have hi := firstUnused_spec _ _ hu
+      have hlt : i < p.inUse.length := by
+        rcases Nat.lt_or_ge i p.inUse.length with h1 | h1
+        · exact h1
+        · rw [List.getElem?_eq_none h1] at hi; cases hi
+      refine ⟨⟨?_, by simpa using h.limit⟩, by simpa using hlt, by rw [hi]; simp, by simp [hlt]⟩
+      have := unusedCount_set_true _ _ hi
+      have := h.count
+      simp only; omega
+  · simp only [hf, if_false]
+    have hz : unusedCount p.inUse = 0 := by have := h.count; omega
+    by_cases hm : p.inUse.length ≥ p.max
+    · simp only [hm, if_true]
+      refine ⟨h, ?_, trivial⟩
+      unfold CapPool.isEmpty
+      have : p.freeCount = 0 := by omega
+      simp [this, hm]
+    · simp only [hm, if_false]
+      refine ⟨⟨?_, by simp; omega⟩, by simp, by simp, by simp⟩
+      simp only [unusedCount_append_true]; exact h.count
+
+/-- `capture_release_ok`: releasing a list that is in use keeps the invariant and makes it available again. -/
+theorem capture_release_ok (p : CapPool) (id : Nat) (h : p.Ok) (hu : p.inUse[id]? = some true) :
+    (p.release id).Ok ∧ (p.release id).inUse[id]? = some false := by
+  have hlt : id < p.inUse.length := by
+    rcases Nat.lt_or_ge id p.inUse.length with h1 | h1
+    · exact h1
+    · rw [List.getElem?_eq_none h1] at hu; cases hu
+  unfold CapPool.release
+  have : ¬ id ≥ p.inUse.length := by omega
+  simp only [this, if_false]
+  refine ⟨⟨?_, by simpa using h.limit⟩, by simp [hlt]⟩
+  have := unusedCount_set_false _ _ hu
+  have := h.count
+  simp only; omega
+
+/-- `capture_reset_ok`: after a reset (even with a lowered limit) everything is free and within the limit. -/
+theorem capture_reset_ok (p : CapPool) : (p.reset).Ok ∧ (p.reset).inUse.length ≤ p.max := by
+  unfold CapPool.reset
+  refine ⟨⟨?_, ?_⟩, ?_⟩
+  · simp [unusedCount]
+  · simp; exact Nat.min_le_right _ _
+  · simp; exact Nat.min_le_right _ _
+
+/-! ## external scanner state -/
+
+/-- `ess_roundtrip`: what is stored is read back unchanged, inline (≤ 24 bytes) or on the heap, and
+`init`/`copy` allocate exactly what `delete` frees: no leak, no free of inline storage. -/
+theorem ess_roundtrip (data : List Nat) :
+    (Ess.init data).1.data = data ∧ (Ess.init data).1.eq data = true ∧
+    ((Ess.init data).1.onHeap = true ↔ data.length > ESS_INLINE) ∧
+    (Ess.init data).2 = (Ess.init data).1.delete ∧
+    ((Ess.init data).1.copy).2 = ((Ess.init data).1.copy).1.delete ∧
+    ((Ess.init data).1.copy).1.data = data := by
+  unfold Ess.init
+  by_cases h : data.length > ESS_INLINE <;> simp [h, Ess.data, Ess.eq, Ess.delete, Ess.copy]
 
 end TsVerif.C07
